@@ -357,6 +357,33 @@ func TestVerifC16(t *testing.T) {
 					nEdge += 5
 				}
 			}
+			// decodings whose Montgomery form r = x*2^256 mod m is below 2^256-m: the value before the final
+			// conditional subtraction of the conversion can then lie in [m, 2^256)
+			span := new(big.Int).Sub(c16B256, m)
+			for q := 0; q < hk.N(3000, 30000); q++ {
+				rr := new(big.Int).SetBytes(rng.Bytes(28))
+				switch q % 4 {
+				case 1:
+					rr.Rsh(rr, uint(rng.Intn(200)))
+				case 2:
+					rr = new(big.Int).Sub(span, new(big.Int).SetBytes(rng.Bytes(2)))
+				}
+				if rr.Sign() < 0 || rr.Cmp(span) >= 0 {
+					continue
+				}
+				x := mod(new(big.Int).Mul(rr, rinv))
+				ex, err := f.set(c16b32(x))
+				if err != nil {
+					r.Violation(fmt.Sprintf("field-%s-setbytes-rejects-canonical", f.name), hk.D{"v": hk.Hex(c16b32(x))})
+					continue
+				}
+				chk("setbytes-small-montgomery-form", ex, x, x)
+				y := mod(new(big.Int).SetBytes(rng.Bytes(32)))
+				ey, _ := f.set(c16b32(y))
+				chk("sub-from-small-montgomery-form", f.sub(ey, ex), mod(new(big.Int).Sub(y, x)), y, x)
+				chk("sub-zero-minus-small-montgomery-form", f.sub(f.zero(), ex), mod(new(big.Int).Neg(x)), x)
+				nEdge += 3
+			}
 			// negation / subtraction / addition of zero and of the extremes, raw canonicity included
 			zero, _ := f.set(c16b32(big.NewInt(0)))
 			top, _ := f.set(c16b32(new(big.Int).Sub(m, c16One)))
